@@ -88,10 +88,17 @@ pub fn hdr(out: &mut Out) {
         };
         for (lt, lname) in &lts {
             let mut run_from = 0usize;
-            let mut w0 = generate_gse_header(&k, lt, 0) as usize;
+            // a panic of the encoder is data: it shows as a word no header can be (100000)
+            let gen = |len: u16| -> usize {
+                match cu("hdr", AssertUnwindSafe(|| generate_gse_header(&k, lt, len))) {
+                    Ok(w) => w as usize,
+                    Err(_) => 100_000,
+                }
+            };
+            let mut w0 = gen(0);
             let mut prev = w0;
             for len in 1..=4096usize {
-                let w = if len <= 4095 { generate_gse_header(&k, lt, len as u16) as usize } else { usize::MAX };
+                let w = if len <= 4095 { gen(len as u16) } else { usize::MAX };
                 if w != prev + 1 {
                     out.emit(
                         &Obj::new()
